@@ -293,7 +293,7 @@ func runAmp(c ampCase) core.Outcome {
 		return out
 	case "timeout":
 		if r.Alloc > bound {
-			add("heap-growth", "timeout", "still running after 20 s and already over the allocation bound")
+			add("heap-growth", "none", "still running after 20 s and already over the allocation bound (Go heap allocation caused by the call exceeds 64*M + 8MB)")
 		}
 		// CPU without a limit is not this property's business.
 		out.Sig = core.Hash64(c.t.name + "|timeout")
